@@ -1335,14 +1335,15 @@ impl<'a, const C: usize, const R: usize, T: 'a + Copy + std::fmt::Debug> Layout<
         let mut custom = CustomEvent::NoEvent;
         if let Some(released_keys) = self.oneshot.tick_osh() {
             for key in released_keys.iter() {
-                custom.update(self.dequeue(Queued {
+                let released = self.dequeue(Queued {
                     event: Event::Release(key.0, key.1),
                     since: 0,
-                }));
+                });
+                self.update_custom_keeping_releases(&mut custom, released);
             }
         }
 
-        custom.update(match &mut self.waiting {
+        let next_custom = match &mut self.waiting {
             Some(w) => match w.tick_wt(&mut self.queue, &mut self.action_queue) {
                 Some((WaitingAction::Hold, _)) => self.waiting_into_hold(-1),
                 Some((WaitingAction::Tap, pq)) => self.waiting_into_tap(pq, -1),
@@ -1372,9 +1373,25 @@ impl<'a, const C: usize, const R: usize, T: 'a + Copy + std::fmt::Debug> Layout<
                     CustomEvent::NoEvent
                 }
             }
-        });
+        };
+        self.update_custom_keeping_releases(&mut custom, next_custom);
         let custom = self.process_extra_waitings(custom);
         self.process_sequence_custom(custom)
+    }
+    /// Like [`CustomEvent::update`], but a custom release that cannot be reported in this tick,
+    /// because another custom release already is, is kept as a pending custom release and
+    /// reported on a following tick instead of being dropped.
+    fn update_custom_keeping_releases(
+        &mut self,
+        custom: &mut CustomEvent<'a, T>,
+        new: CustomEvent<'a, T>,
+    ) {
+        match (&*custom, new) {
+            (CustomEvent::Release(_), CustomEvent::Release(value)) => {
+                let _ = self.states.push(State::SeqCustomActive(value));
+            }
+            (_, new) => custom.update(new),
+        }
     }
     /// Takes care of draining and populating the `active_sequences` ArrayDeque,
     /// giving us sequences (aka macros) of nearly limitless length!
